@@ -30,7 +30,7 @@ ASSUMPTIONS = common.BASE_ASSUMPTIONS
 
 def budget(tier: str) -> int:
     """generated cases"""
-    return 2400 if tier == "quick" else 48000
+    return 1400 if tier == "quick" else 48000
 
 
 def corpus_items(tier: str) -> list:
